@@ -79,6 +79,7 @@ fn main() {
         "c07_toml" => c07::toml_text(thorough),
         "c20_twice" => c05::twice(thorough),
         "c19_writers" => c19::writers(thorough),
+        "c19_streams" => c19::streams(thorough),
         "c03_env_files" => c03::env_files(thorough),
         "c10_layer_paths" => c03::layer_paths(thorough),
         "c11_delete" => c11::delete(thorough),
@@ -86,7 +87,9 @@ fn main() {
         "c01_layers" => c01::layers(thorough),
         "c02_layers" => c02::layers(thorough),
         "c13_order" => c13::order(thorough),
+        "c13_workspace" => c13::workspace(thorough),
         "c14_normalize" => c14::normalize(thorough),
+        "c14_package" => c14::package(thorough),
         "c17_argv" => c17::argv_roundtrip(thorough),
         "c17_glue" => c17::glue(thorough),
         "c18_inventory" => c18::inventory(thorough),
